@@ -170,7 +170,7 @@ func c01Exec(run *ev.Run, c ev.Case) {
 		switch b.Kind {
 		case "multi":
 			for i := 0; i < b.Count; i++ {
-				c01Multi(run, c01M{Kind: []string{"rotate", "hsdamage"}[i%2], Seed: b.Seed*6151 + int64(i), Suite: (i / 2) % 9, Which: (i / 18) % 3, Mode: i % 5})
+				c01Multi(run, c01M{Kind: []string{"rotate", "hsdamage", "rakp4-lost"}[i%3], Seed: b.Seed*6151 + int64(i), Suite: (i / 2) % 9, Which: (i / 18) % 3, Mode: i % 5})
 			}
 		case "grid", "grid7":
 			for i := b.From; i < b.From+b.Count && i < 9*17*21; i++ {
@@ -602,6 +602,32 @@ func c01Multi(run *ev.Run, m c01M) {
 			run.Event("credential-rotations", 1)
 		}
 		run.Nontrivial(fmt.Sprintf("rotate|%v|%v|%d", su, useKG, m.Mode%3))
+	case "rakp4-lost":
+		// the BMC accepts RAKP 3 (for it the session now exists), but its RAKP 4 never arrives: the
+		// attempt fails. The caller tries again on the same connection; that attempt must be a complete,
+		// fresh establishment and succeed
+		lost := 0
+		e.Filter = func(n int, req, reply []byte) ([]byte, error) {
+			if len(req) > 5 && req[5] == 0x14 {
+				lost++
+				return nil, nil
+			}
+			return reply, nil
+		}
+		lc, lcancel := e.LimitCtx(3 + 2 + m.Mode%3)
+		_, ferr := e.ST.NewV2Session(lc, opts)
+		lcancel()
+		e.Filter = nil
+		if ferr == nil || lost == 0 {
+			run.Violation("C01:session-without-rakp4", fmt.Sprintf("suite %v: NewV2Session returned a session although every RAKP 4 was lost (%d)", su, lost), cs, nil)
+			return
+		}
+		for k := 0; k < 2; k++ {
+			if !one(fmt.Sprintf("handshake %d on a connection whose earlier attempt lost its RAKP Message 4", k+2)) {
+				return
+			}
+		}
+		run.Nontrivial(fmt.Sprintf("rakp4-lost|%v|%v", su, useKG))
 	case "hsdamage":
 		// a session-less exchange first, whose reply the network later duplicates
 		var guidReply []byte
